@@ -1,6 +1,7 @@
 import Aiorpcx.Common.Hex
 import Aiorpcx.Common.RatIO
 import Aiorpcx.C20.Model
+import Aiorpcx.C20.Timed
 /-! Line-protocol driver for the C20 model.
     `R <current> <trt> <avg>`  → `<new>;<pre-round value>;<pinned new>;<pinned pre-round value>`
     `M <initial> <trt> <recalibrate_count> | op ...` small-step monitor (see below)
@@ -153,6 +154,33 @@ def go (c : OCfg) (o : Out) : List OOp → List String
   | [] => []
   | op :: ops => let r := ostep c o op; orecord r.1 r.2 :: go c r.1 ops
 
+/-! Timed mode: `T <initial> <trt> <recalibrate_count> <sent_request_timeout> | op ...` with ops
+`c<i>:<count>` (a caller reaches the limiter), `a<i>` (the peer's answer to i is delivered),
+`w<dt>` (time passes), `l` (connection lost) → the events, joined by ` `: `W<i>@<t>` written,
+`E<i>@<t>:<A|T|C>` the call ended (answered / TaskTimeout / cancelled). -/
+def parseTOp (s : String) : Option TOp :=
+  match s.toList with
+  | ['l'] => some .lose
+  | 'a' :: r => (String.ofList r).toNat?.map TOp.answer
+  | 'w' :: r => (parseRat (String.ofList r)).map TOp.wait
+  | 'c' :: r =>
+      match (String.ofList r).splitOn ":" with
+      | [i, n] =>
+          match i.toNat?, n.toNat? with
+          | some i, some n => some (TOp.call i n)
+          | _, _ => none
+      | _ => none
+  | _ => none
+
+def showKind : EndKind → String
+  | .answered => "A"
+  | .timedOut => "T"
+  | .cancelled => "C"
+
+def showTEv : TEv → String
+  | .written i t => s!"W{i}@{showRat t}"
+  | .ended i _ t k => s!"E{i}@{showRat t}:{showKind k}"
+
 def handle (line : String) : String :=
   match (line.splitOn " ").filter (· ≠ "") with
   | ["R", cur, trt, avg] =>
@@ -165,6 +193,12 @@ def handle (line : String) : String :=
       | some n, some trt, some rc, some ops =>
           if ops.isEmpty then "." else String.intercalate " | " (go ⟨trt, rc⟩ (oinit n) ops)
       | _, _, _, _ => "bad-op"
+  | "T" :: n :: trt :: rc :: tmo :: "|" :: ops =>
+      match n.toNat?, parseRat trt, rc.toNat?, parseRat tmo, ops.mapM parseTOp with
+      | some n, some trt, some rc, some tmo, some ops =>
+          let r := trun ⟨trt, rc⟩ tmo (tinit n) ops
+          if r.2.isEmpty then "." else String.intercalate " " (r.2.map showTEv)
+      | _, _, _, _, _ => "bad-op"
   | "M" :: n :: trt :: rc :: "|" :: ops =>
       match n.toNat?, parseRat trt, rc.toNat?, ops.mapM parseSOp with
       | some n, some trt, some rc, some ops =>
